@@ -172,7 +172,14 @@ pub fn profile_expand() -> GenCfg {
 
 pub fn c02(case_seed: u64, acc: &mut Acc) {
     let mut r = Prng::new(case_seed);
-    let cfg = if r.chance(1, 2) { profile_expand() } else { super::c01::profile() };
+    let mut cfg = if r.chance(1, 2) { profile_expand() } else { super::c01::profile() };
+    if r.chance(60, 1000) {
+        // a signal list without any output-capable or virtual signal: checked rows then have
+        // empty `outputs` too, but they are still sent with the output-reading call
+        cfg.n_out = (0, 0);
+        cfg.n_bidir = (0, 0);
+        cfg.n_declares = (0, 0);
+    }
     let mut case = gen::generate(&mut r, &cfg);
     maybe_fault(&mut case, &mut r, 350);
     run_oracles(
@@ -188,6 +195,8 @@ pub fn c02(case_seed: u64, acc: &mut Acc) {
         },
         |c, ran, acc| {
             acc.tag_n("driver_overrides_write_input", c.script.override_write as u64);
+            acc.tag_n("no_output_capable_signal_at_all", !c.signals.iter().any(|s| s.is_output()) as u64);
+            acc.tag_n("driver_rebuilds_signal_storage_per_call", c.script.rebuild_signals as u64);
             acc.tag_n("driver_forwards_write_input", !c.script.override_write as u64);
             acc.tag_n("fault_injected", !c.script.faults.is_empty() as u64);
             acc.tag_n("fault_at_constructor", c.script.faults.iter().any(|f| f.0 == 0) as u64);
@@ -384,7 +393,7 @@ pub fn c03_exhaustive(acc: &mut Acc) -> Value {
                         layout,
                         values: if pi % 2 == 0 { ValueFn::Unique { salt: mask as u64, narrow: false } } else { ValueFn::Mixed { salt: pi as u64, z: 200, x: 200, edge: 200 } },
                         faults: vec![],
-                        override_write: pi % 2 == 1,
+                        override_write: pi % 2 == 1, rebuild_signals: false,
                     },
                     layout_opts: crate::pp::Layout::plain(),
                     rng_seed: 1,
@@ -525,7 +534,7 @@ pub fn c05(case_seed: u64, acc: &mut Acc) {
         let case = Case {
             program: Program { header, items: vec![Item::Row(1, entries.clone()), Item::Row(2, entries.iter().map(|e| if matches!(e, Entry::X(_)) { Entry::Lit(0, Radix::Dec) } else { e.clone() }).collect())] },
             signals: sigs,
-            script: Script { layout: vec![], values: ValueFn::Unique { salt: 1, narrow: true }, faults: vec![], override_write: r.chance(1, 2) },
+            script: Script { layout: vec![], values: ValueFn::Unique { salt: 1, narrow: true }, faults: vec![], override_write: r.chance(1, 2), rebuild_signals: false },
             layout_opts: crate::pp::Layout::plain(),
             rng_seed: 1,
         };
@@ -659,7 +668,7 @@ pub fn c05_exhaustive(tier: &str, acc: &mut Acc) -> Value {
                         layout: layout.clone(),
                         values: ValueFn::Unique { salt: 5, narrow: true },
                         faults: vec![],
-                        override_write: code % 2 == 0,
+                        override_write: code % 2 == 0, rebuild_signals: false,
                     },
                     layout_opts: crate::pp::Layout::plain(),
                     rng_seed: 1,
@@ -1053,7 +1062,7 @@ pub fn fixture_counter(acc: &mut Acc) -> Value {
             layout: vec![out, tc],
             values: ValueFn::Counter { clk, rst: Some(rst), out, tc: Some(tc), modulus: 10, init: 11, mask: 15 },
             faults: vec![],
-            override_write: over,
+            override_write: over, rebuild_signals: false,
         };
         let num = |v: i64| Expr::Num(v, Radix::Dec);
         let id = |n: &str| Expr::Ident(n.to_string());
